@@ -477,6 +477,9 @@ def tree_of(toks):
     return nodes
 
 
+EXC_DECL_RE = re.compile(r"^(?:namespace \w+ \{ )*struct \w+ \{\};(?: \})*$")
+
+
 def observe(cpp):
     """-> {"globals": [[name, ty]], "funs": [[f, nodes]], "setup": nodes, "loop": nodes}"""
     lines = cpp.splitlines()
@@ -515,6 +518,9 @@ def observe(cpp):
         if m:
             glob.append([m.group(2), TYPES.index(m.group(1))])
             i += 1
+            continue
+        if EXC_DECL_RE.match(ln):             # the class of an `except <Name>:` clause, declared at file scope since the repair of
+            i += 1                            # F-C06-named-except (coq/Lang/ExcDecl.v of C06): no variable, not part of this model
             continue
         raise ValueError("unexpected top-level line: " + ln)
     if protos:
